@@ -21,7 +21,7 @@ def main():
     subprocess.run('git checkout -q -- . && git clean -fdq && git checkout -q --detach %s' % head, shell=True, cwd=WT, check=True)
     res = json.load(open(OUT)) if os.path.exists(OUT) else {}
     unconfirmed = set()
-    for inc, sfx in (('_incoming', ''), ('_incoming2', '#2'), ('_incoming3', '#3'), ('_incoming4', '#4'), ('_incoming5', '#5')):
+    for inc, sfx in (('_incoming', ''), ('_incoming2', '#2'), ('_incoming3', '#3'), ('_incoming4', '#4'), ('_incoming5', '#5'), ('_incoming6', '#6')):
         vf = os.path.join(HERE, 'seeded', inc, 'validation.json')
         if os.path.exists(vf):
             unconfirmed |= {k + sfx for k, v in json.load(open(vf)).items() if not v.get('confirmed')}
